@@ -69,6 +69,17 @@ fn coq_op(c: &Case) -> String {
             }
         }
         "Range" => "ORange".to_string(),
+        "MaxPool" | "AveragePool" => {
+            let ks = c.attr_ints("kernel_shape").unwrap_or_default();
+            let zl = |l: &Vec<i64>| coq_list(l, |x| coq_z(*x));
+            let auto = c.attrs.iter().find(|(n, _)| n == "auto_pad").and_then(|(_, a)| match a { Attr::Str(s) => Some(s.clone()), _ => None });
+            let pads = match auto.as_deref() {
+                Some("SAME_UPPER") | Some("SAME_LOWER") => "None".to_string(),
+                _ => format!("(Some {})", zl(&c.attr_ints("pads").unwrap_or(vec![0; 2 * ks.len()]))),
+            };
+            let strides = c.attr_ints("strides").unwrap_or(vec![1; ks.len()]);
+            format!("(OPool {} {} {} {})", zl(&ks), pads, zl(&strides), c.attr_int("ceil_mode").unwrap_or(0) != 0)
+        }
         _ => "OOther".to_string(),
     }
 }
@@ -129,7 +140,15 @@ fn exec_line(line: &str) -> (String, String) {
     } else {
         format!("{}:{}:{}{}", if modelled { "model" } else { "diff" }, c.op, kind, if ran > 0 { ":ran" } else { ":norun" })
     };
-    (tag, format!("{{| c_name := \"{}\"%string; c_op := {}; c_in := {}; c_res := {}; c_insts := [{}] |}}", c.op, op_coq, ins_coq, res_coq, insts.join("; ")))
+    // class of the finding F82: ceil_mode pooling whose end padding exceeds the kernel in some dim
+    let mut cname = c.op.clone();
+    if (c.op == "MaxPool" || c.op == "AveragePool") && c.attr_int("ceil_mode").unwrap_or(0) != 0 {
+        if let (Some(k), Some(p)) = (c.attr_ints("kernel_shape"), c.attr_ints("pads")) {
+            let n = k.len();
+            if p.len() == 2 * n && (0..n).any(|d| p[n + d] > k[d]) { cname = "Pool:pad_end>kernel".to_string(); }
+        }
+    }
+    (tag, format!("{{| c_name := \"{}\"%string; c_op := {}; c_in := {}; c_res := {}; c_insts := [{}] |}}", cname, op_coq, ins_coq, res_coq, insts.join("; ")))
 }
 
 // ------------------------------------------------------------------ graph-level cases
@@ -294,6 +313,8 @@ fn main() {
                 fixed.push(g.case(op, vec![], 1, vec![G::inp(dt, Sym::Shape(a)), G::inp(dt, Sym::Shape(b))]));
             }
             for op in REDUCE_OPS { let t = g.shape(2); fixed.push(g.case(op, vec![("keepdims", Attr::Int(0))], 1, vec![G::inp('f', Sym::Shape(t)), G::inp('i', Sym::Vector(vec![SymExpr::Value(-1)]))])); }
+            let thorough = args.get(4).map(|t| t == "thorough").unwrap_or(false);
+            fixed.extend(g.pool_conv_cases(thorough));
             for l in fixed.iter().take(n) { writeln!(out, "{}", l).unwrap(); }
             for k in 0..n.saturating_sub(fixed.len()) {
                 let line = if k % 7 == 6 {
